@@ -1,6 +1,8 @@
 (* C17 - the command line gives the same constraints and verdicts as the library: the flag layer. *)
 From Coq Require Import ZArith List Bool.
-From Tdda Require Import Base.Sexp Base.Str Constraints.Cli.
+From Coq Require Import ZArith.
+From Tdda Require Import Base.Sexp Base.Str Constraints.Cli Constraints.Model Constraints.ModelProofs
+  Constraints.Detect Constraints.ClosureDetect.
 Import ListNotations.
 
 Theorem C17_contradictory_options_exit : forall f,
@@ -37,3 +39,27 @@ Theorem C17_discover_contradiction : forall rex norex,
   (forall b, discover_params rex norex = Some b -> b = rex).
 Proof. exact discover_contradiction_proof. Qed.
 Print Assumptions C17_discover_contradiction.
+
+(* "constraints discovered from a file verify against that file with no failures": whatever non-contradictory
+   verify / detect flags are given (the type-checking flag selects strict or sloppy checking, absent = sloppy),
+   verifying a table with the constraints discovered from its own columns counts no failure, and detection
+   flags no record and writes no output file.  (The table is the frame the command line loaded: that the
+   command line and the library see the same frame is what the subprocess correspondence checks.) *)
+Definition params_of_tc (tc : option bool) : params :=
+  {| p_strict := match tc with Some b => b | None => false end |}.
+
+Theorem C17_discovered_verify_no_failures : forall f vp fields,
+  verify_params f = Some vp -> Forall self_discovered fields ->
+  v_failures (verify_dataset (params_of_tc (vp_tc vp)) (as_fields fields)) = 0%Z.
+Proof. intros f vp fields _ H. exact (proj1 (closure_dataset_proof _ fields H)). Qed.
+Print Assumptions C17_discovered_verify_no_failures.
+
+Theorem C17_discovered_detect_no_records : forall tc fields nrows existed, Forall self_discovered fields ->
+  d_failing (detect (params_of_tc tc) fields nrows) = 0%Z /\
+  outfile_after existed (d_failing (detect (params_of_tc tc) fields nrows)) = false.
+Proof.
+  intros tc fields nrows existed H. split.
+  - exact (proj1 (proj2 (proj2 (closure_detect_proof _ fields nrows H)))).
+  - exact (closure_detect_no_file_proof _ fields nrows existed H).
+Qed.
+Print Assumptions C17_discovered_detect_no_records.
